@@ -5,11 +5,14 @@
    * the releasing direction, for every multiplicity pairing (1-1, 1-n, n-1,
      n-n, self-opposites included): unsetting a single-valued end and removing
      from a multi-valued end keep `y in x.r  <->  x in y.r'`;
-   * RE-POINTING a 1-1 reference (x.r = y whatever x and y were linked to
-     before): the previous partner of x is released, the previous partner of y
-     is detached, and symmetry holds afterwards — the statement's headline.
-   PARTIAL: re-pointing/appending for the 1-n, n-1, n-n pairings and
-   self-opposites, clear/extend/delete and the interplay with containment are
+   * the LINKING direction for all four pairings (two distinct features):
+     x.r = y on a 1-1 and on a 1-n pair (whatever x and y were linked to
+     before: the previous partner of x is released, y is detached from its
+     previous partner), x.r.append(y) / insert on an n-1 pair (y leaves the
+     collection that held it) and on an n-n pair — the statement's headline
+     "re-pointing one end also releases the previous partner".
+   PARTIAL: linking through a self-opposite feature, pop/clear/extend/item
+   assignment/delete as compositions, and the interplay with containment are
    not yet theorems; they are carried by the correspondence and the
    symmetric-pair oracle (harness/props/c01.py). *)
 From Coq Require Import List Bool Arith.
@@ -44,6 +47,39 @@ Theorem C01_repointing_one_to_one_keeps_symmetry_partial :
     sym m (snd (set_full m s (x, f) (VObj y))).
 Proof. exact set11_preserves_sym. Qed.
 Print Assumptions C01_repointing_one_to_one_keeps_symmetry_partial.
+
+Theorem C01_repointing_one_to_many_keeps_symmetry_partial :
+  forall m, no_containment m -> wf_opp m ->
+  forall s x f g y,
+    sym m s -> shape m s ->
+    f_opp (fd m f) = Some g -> f <> g ->
+    f_many (fd m f) = false -> f_many (fd m g) = true ->
+    check_single m f (VObj y) = true ->
+    sym m (snd (set_full m s (x, f) (VObj y))).
+Proof. exact set_1n_preserves_sym. Qed.
+Print Assumptions C01_repointing_one_to_many_keeps_symmetry_partial.
+
+Theorem C01_append_many_to_one_keeps_symmetry_partial :
+  forall m, no_containment m -> wf_opp m ->
+  forall s x f g pos y,
+    sym m s -> shape m s ->
+    f_opp (fd m f) = Some g -> f <> g ->
+    f_many (fd m f) = true -> f_many (fd m g) = false ->
+    check_elem m f (VObj y) = true ->
+    sym m (snd (coll_add_full m s (x, f) pos (VObj y))).
+Proof. exact add_n1_preserves_sym. Qed.
+Print Assumptions C01_append_many_to_one_keeps_symmetry_partial.
+
+Theorem C01_append_many_to_many_keeps_symmetry_partial :
+  forall m, no_containment m -> wf_opp m ->
+  forall s x f g pos y,
+    sym m s ->
+    f_opp (fd m f) = Some g -> f <> g ->
+    f_many (fd m f) = true -> f_many (fd m g) = true ->
+    check_elem m f (VObj y) = true ->
+    sym m (snd (coll_add_full m s (x, f) pos (VObj y))).
+Proof. exact add_nn_preserves_sym. Qed.
+Print Assumptions C01_append_many_to_many_keeps_symmetry_partial.
 
 (* non-vacuity: a 1-n pair, a reachable symmetric state, and the theorem's conclusion computed *)
 Definition ex_mm : mm :=
